@@ -96,9 +96,15 @@ def applyValues (dirs : Directives) (ds : List Bytes) : Directives :=
 def getCacheControlDirectives (h : Header) : Directives :=
   { applyValues {} (allHeaderValues b!"cache-control" h) with vary := allHeaderValues b!"vary" h }
 
-/-- `CacheControlDirectives.DoNotCache` -/
+/-- `x != nil && *x <= 0` -/
+def nonPositive : Option Int → Bool
+  | some n => decide (n ≤ 0)
+  | none => false
+
+/-- `CacheControlDirectives.DoNotCache`; a NEGATIVE lifetime counts like zero since the fix: commit for
+    finding C09-g (it used to be `== 0`: `max-age=-1` was stored with a lifetime that is over at age 0) -/
 def Directives.doNotCache (d : Directives) : Bool :=
-  d.noCache || d.priv || d.noStore || d.sMaxAge == some 0 || d.maxAge == some 0
+  d.noCache || d.priv || d.noStore || nonPositive d.sMaxAge || nonPositive d.maxAge
 
 /-- `CacheControlDirectives.CanStaleIfError` -/
 def Directives.canStaleIfError (d : Directives) (age : Int) : Bool :=
